@@ -849,6 +849,10 @@ fn split_text(s: &str) -> Vec<String> {
     let mut is_leading_whitespace = true;
     let mut is_backslash_prev = false;
 
+    // A backslash inside a string literal escapes the next character,
+    // so `\"` does not end the string.
+    let mut is_string_escape = false;
+
     let mut iter = s.chars().peekable();
     while let Some(c) = iter.next() {
 
@@ -887,7 +891,7 @@ fn split_text(s: &str) -> Vec<String> {
             x = String::from("");
             x.push(c);
             is_string = true;
-        } else if c == '"' && is_string {
+        } else if c == '"' && is_string && !is_string_escape {
             x.push(c);
             ret.push(x);
             x = String::from("");
@@ -905,6 +909,7 @@ fn split_text(s: &str) -> Vec<String> {
         }
 
         is_backquote_prev = c == '`';
+        is_string_escape = is_string && c == '\\' && !is_string_escape;
     }
     ret.push(x);
     ret
